@@ -15,8 +15,11 @@
 #define	RETURN(_code)	do {						\
 		asn_dec_rval_t rval;					\
 		rval.code = _code;					\
-		if(opt_ctx) opt_ctx->step = step; /* Save context */	\
-		if(_code == RC_OK || opt_ctx)				\
+		/* limit_len and expect_00_terminators are not saved,	\
+		 * so a starved tag chain is restarted from its start */	\
+		if(opt_ctx && _code != RC_WMORE)			\
+			opt_ctx->step = step; /* Save context */	\
+		if(_code == RC_OK || (opt_ctx && _code != RC_WMORE))	\
 			rval.consumed = consumed_myself;		\
 		else							\
 			rval.consumed = 0;	/* Context-free */	\
